@@ -600,7 +600,7 @@ def _adv_getitem(t, index):
             raise Unsupported("advanced indexing mixed with None/Ellipsis")
     # single boolean mask: data dependent shape
     if any(T(i) and i.dtype == "b" for i in index):
-        if len(index) == 1 and index[0].rank == t.rank:
+        if len(index) == 1 and index[0].rank <= t.rank:
             from .methods import MaskedSel
 
             return MaskedSel(t, index[0])
@@ -717,13 +717,25 @@ def setitem(t: SymTensor, index, value):
             if not ctx.same(a, b):
                 ctx.wf("mask-shape", zint(a) == zint(b))
         ms = m.snap()
+        mr = m.rank
+        if type(value).__name__ == "MaskedSel":
+            # x[mask] = y[mask]: rows selected by the same mask are copied from y (values, not storage)
+            if value.mask is not m:
+                raise Unsupported("masked assignment from a selection with a different mask")
+            ys = value.t.snap()
+            if value.t.rank != t.rank:
+                raise Unsupported("masked assignment: rank mismatch")
+            for a_, b_ in zip(value.t.shape, t.shape):
+                if not ctx.same(a_, b_):
+                    ctx.wf("masked-assign-shape", zint(a_) == zint(b_))
+            t.write(lambda idx, old: ite(ms(idx[:mr]), cast(ys(idx), t.dtype), old))
+            return
         if T(value):
             if value.rank != 0:
                 raise Unsupported("masked assignment of a non-scalar tensor (data-dependent)")
             v = value.at()
         else:
             v = value
-        mr = m.rank
         t.write(lambda idx, old: ite(ms(idx[:mr]), _cast_like(v, t.dtype), old))
         return
     if any(T(i) for i in index):
